@@ -54,10 +54,6 @@ def macroClass (env : Env) (s : State) (m : MacroCall) : String :=
   match m with
   | .noDir p => if pExists env s p && !pIsDir env s p then "no_dir_no_file_exists" else "-"
   | .noFile p => if pExists env s p && !pIsFile env s p then "no_dir_no_file_exists" else "-"
-  | .copyfile a _ =>
-    (match nodeOf env s a with
-     | some n => if n.kind = .file && (decodeUtf8 n.data).isNone then "copyfile_non_utf8" else "-"
-     | none => "-")
   | _ => "-"
 
 /-- spec column: should the macro pass, and (when it should pass, or for a checking macro) the
